@@ -111,18 +111,44 @@ func memZeroTail(m *MemoryInstance) bool {
 //@   ensures forall i int :: 0 <= i && i < cap(m.Buffer) && (!r0 || i < int(offset) || i >= int(offset)+len(val)) ==> m.Buffer[i] == old[byte](m.Buffer[i])
 //@   modifies elems(m.Buffer)
 
+// memoryGrownCalls counts the notifications sent to the owning engine (ghost).
+func memoryGrownCalls() int { return verif_ghost_int("memoryGrown") }
+
 //@ iface (me ModuleEngine) MemoryGrown()
-//@   modifies nothing
+//@   ensures memoryGrownCalls() == old(memoryGrownCalls()) + 1
+//@   modifies ghost("memoryGrown")
+
+// The two helpers below rewrite the slice header through unsafe/reflect.SliceHeader; their
+// contracts are assumed (trusted), everything that uses them is verified against these.
+//@ func atomicStoreLength(slice *[]byte, length uintptr)
+//@   trusted
+//@   ensures len(*slice) == int(length) && cap(*slice) == old(cap(*slice)) && verif_slice_at(*slice, old(*slice), 0)
+//@   modifies *slice
+
+//@ func atomicStoreLengthAndCap(slice *[]byte, length uintptr, newCap uintptr)
+//@   trusted
+//@   ensures len(*slice) == int(length) && cap(*slice) == int(newCap) && verif_slice_at(*slice, old(*slice), 0)
+//@   modifies *slice
 
 //@ func (m *MemoryInstance) Grow(delta uint32) (result uint32, ok bool)
 //@   requires memInv(m) && memZeroTail(m)
-//@   requires !m.Shared && m.expBuffer == nil && m.ownerModuleEngine != nil
+//@   requires m.expBuffer == nil && m.ownerModuleEngine != nil
+//@   requires m.Shared ==> m.Cap == m.Max
 //@   ensures[ok-iff-within-max] ok == (delta == 0 || uint64(old(len(m.Buffer)))>>16 + uint64(delta) <= uint64(m.Max))
 //@   ensures[returns-previous-size] ok ==> result == uint32(uint64(old(len(m.Buffer))) >> 16)
 //@   ensures[new-size] ok ==> uint64(len(m.Buffer)) == uint64(old(len(m.Buffer))) + uint64(delta)<<16
 //@   ensures[failure-changes-nothing] !ok ==> len(m.Buffer) == old(len(m.Buffer)) && result == 0 && verif_slice_at(m.Buffer, old(m.Buffer), 0)
 //@   ensures[inv] memInv(m) && memZeroTail(m)
-//@   ensures[limits-unchanged] m.Max == old(m.Max) && m.Min == old(m.Min)
+//@   ensures[limits-unchanged] m.Max == old(m.Max) && m.Min == old(m.Min) && m.Shared == old(m.Shared)
 //@   ensures[contents-preserved] forall i int :: 0 <= i && i < old(len(m.Buffer)) ==> m.Buffer[i] == old[byte](m.Buffer[i])
 //@   ensures[new-pages-zero] forall i int :: old(len(m.Buffer)) <= i && i < len(m.Buffer) ==> m.Buffer[i] == 0
-//@   modifies m.Buffer, m.Cap, elems(m.Buffer)
+//@   ensures[shared-never-moves] m.Shared ==> verif_slice_at(m.Buffer, old(m.Buffer), 0)
+//@   ensures[engine-notified] memoryGrownCalls() == old(memoryGrownCalls()) + b2i(ok && delta != 0)
+//@   modifies m.Buffer, m.Cap, elems(m.Buffer), ghost("memoryGrown")
+
+func b2i(b bool) int {
+	if b {
+		return 1
+	}
+	return 0
+}
